@@ -30,6 +30,7 @@ RULE += (' Also: every tee pattern also over a source without aclose.')
 RULE += (' Also: three started tee children, two closed one after the other in every order.')
 RULE += (' Also: text / bytes pieces summed over a long stream.')
 RULE += (' Also: partially ordered / NaN keys in nlargest and nsmallest.')
+RULE += (' Also: the consumer calling other tools once per item with closures / partials bound to that item.')
 ASSUMPTIONS = ["the bound's constant was read off the unchanged tree with slack; a buffering tool grows linearly and "
                "crosses it within a few steps, so the verdict does not depend on the exact constant"]
 EXHAUSTIVE = {"quick": False, "thorough": False}
@@ -242,6 +243,9 @@ def _tools():
     T["groupby_nokey"] = (1, 4, None, "groupby_nokey", {"runs": 3})
     T["groupby_identity_key"] = (1, 4, None, "groupby_nokey", {"runs": 1, "identity": True})
     T["groupby_failing_key"] = (1, 1, None, "groupby_failing_key", {})
+    # the CONSUMER of a long stream calls other tools once per item, with a fresh closure / partial bound to that item
+    # (a nearest-reference look-up, a per-chunk check): nothing of a finished call is kept - not its callable either
+    T["per_item_tool_calls"] = (1, 1, None, "per_item", {})
     T["iter_sentinel"] = (1, 0, None, "iter_sentinel", {})
     T["all"] = (1, 0, lambda S, n: A.all(S[0]), "agg", {})
     T["any"] = (1, 0, lambda S, n: A.any(S[0]), "agg", {"falsy": True})
@@ -328,6 +332,26 @@ def run_tool(case, stats):
                     del item
                     census.sample("after group item")
                 del group
+        elif kind == "per_item":
+            import functools as _ft
+
+            def near(item, r):
+                return abs(r - item.key)
+
+            async def anear(item, r):
+                return abs(r - item.key)
+
+            async for item in A.iter(streams[0]):
+                await A.min([1, 2, 3], key=lambda r, item=item: abs(r - item.key))
+                await A.max([1, 2, 3], key=_ft.partial(anear, item))
+                await A.list(A.map(_ft.partial(near, item), [1, 2]))
+                await A.any(A.filter(lambda r, item=item: r > item.key, [1]))
+                await A.reduce(lambda a, b, item=item: a, [1, 2])
+                await A.sorted([2, 1], key=_ft.partial(near, item))
+                await A.nlargest([2, 1], 1, key=lambda r, item=item: r)
+                produced["n"] += 1
+                del item
+                census.sample("after the per-item tool calls")
         elif kind == "groupby_nokey":
             gb = A.groupby(streams[0], key=(lambda x: x)) if opt.get("identity") else A.groupby(streams[0])
             async for key, group in gb:
